@@ -76,6 +76,8 @@ FIELDS = {
 FIELDS[15] = ("star_frame::data_types::PackedValueChecked<core::num::NonZeroU8>", 1, 1, "nonzero")
 FIELDS[16] = ("star_frame::data_types::PackedValueChecked<bool>", 1, 1, "bool")
 FIELDS[17] = ("star_frame::data_types::PackedValueChecked<u16>", 2, 1, "any")
+# the packed wrapper of a type with interior padding: alignment 1 and checked, but its bytes are not all initialised
+FIELDS[45] = ("star_frame::data_types::PackedValueChecked<gen_c19::Padded>", 8, 1, "any")
 for _n in range(0, 13):
     FIELDS[20 + _n] = ("[u8; %d]" % _n, _n, 1, "any")
 # tuple field types.  star_frame/src/align1.rs 40-66: `unsafe impl<T1..Tn> Align1 for (T1, .., Tn) where EVERY Ti: Align1`;
@@ -103,7 +105,7 @@ T_CODE = 99
 T_U8_CODE = 97                    # the tuple (T, u8)
 U8_T_CODE = 98                    # the tuple (u8, T)
 PARAM_CODES = (T_U8_CODE, U8_T_CODE, T_CODE)      # field codes that mention the type parameter (never instantiations)
-ALIGN1_FIELDS = [0, 1, 2, 3, 4, 5, 6, 7, 8, 9, 15, 16, 17, 20, 21, 23, 24, 28, 18, 19, 38]
+ALIGN1_FIELDS = [0, 1, 2, 3, 4, 5, 6, 7, 8, 9, 15, 16, 17, 20, 21, 23, 24, 28, 18, 19, 38, 45]
 WIDE_FIELDS = [10, 11, 12, 13, 14, 33, 34, 35, 36, 37, 39, 40, 41, 42, 43, 44]
 
 #   code: (rust type, may be zero sized)
@@ -406,6 +408,14 @@ use bytemuck::{CheckedBitPattern, NoUninit, Pod, Zeroable};
 #[repr(u8)]
 #[derive(Debug, PartialEq, Eq)]
 pub enum Tri { A, B, C }
+
+/// a Copy type with a bit-pattern check and INTERIOR PADDING (3 bytes after `a`): CheckedBitPattern, never NoUninit
+#[derive(Clone, Copy, Debug, PartialEq, Eq, CheckedBitPattern)]
+#[repr(C)]
+pub struct Padded {
+    pub a: u8,
+    pub b: u32,
+}
 
 /// the doctest's struct whose last (and only unsized) field may be zero sized
 #[unsized_type(skip_idl)]
@@ -843,7 +853,7 @@ def gen_cases(rng, tier):
             add(enc(0, 1, w + 1, [(2, 0)], [[z, T_CODE]]), "sys")
             add(enc(0, 1, w + 1, [(2, 0)], [[T_CODE, z]]), "sys")
     # the packed wrappers with hand-written markers, alone / first / last in every zero-copy flavour and in a sized part
-    for fcode in (15, 16, 17, 8):
+    for fcode in (15, 16, 17, 8, 45):
         for mcode in (1, 2, 3, 4):
             for fl in ([fcode], [0, fcode], [fcode, 0]):
                 add(enc(mcode, 0, 0, [], [fl]), "sys")
